@@ -187,7 +187,11 @@ def lowerFirst (s : String) : Bool :=
   | c :: _ => c.isLower
   | [] => false
 
-def unraw (s : String) : String := if s.startsWith "r#" then (s.drop 2).toString else s
+/-- `IdentExt::unraw`: the identifier without a leading `r#` -/
+def unraw (s : String) : String :=
+  match s.toList with
+  | 'r' :: '#' :: rest => String.ofList rest
+  | _ => s
 
 def plainPat (name : String) : Pat := .ident false false name none
 
